@@ -349,6 +349,24 @@ func playEnc(e *encode.Encoder, t []string) []string {
 	return obs
 }
 
+func colorOfModel(model, raw string) color.Color {
+	u, err := strconv.ParseUint(raw, 16, 64)
+	if err != nil {
+		panic("bad raw colour " + raw)
+	}
+	switch model {
+	case "nrgba":
+		return color.NRGBA{uint8(u >> 24), uint8(u >> 16), uint8(u >> 8), uint8(u)}
+	case "rgba64":
+		return color.RGBA64{uint16(u >> 48), uint16(u >> 32), uint16(u >> 16), uint16(u)}
+	case "gray16":
+		return color.Gray16{uint16(u)}
+	case "alpha16":
+		return color.Alpha16{uint16(u)}
+	}
+	panic("bad colour model " + model)
+}
+
 func optsOfToks(t []string) []decode.DecodeOption {
 	var o []decode.DecodeOption
 	for _, s := range t {
@@ -358,6 +376,10 @@ func optsOfToks(t []string) []decode.DecodeOption {
 		case strings.HasPrefix(s, "OI:"):
 			p := strings.Split(s, ":")
 			o = append(o, decode.WithColorAt(intarg(p[1]), rgbaOfHex(p[2])))
+		case strings.HasPrefix(s, "OJ:"):
+			// OJ:<index>:<colour model>:<raw hex>:<expected RGBA (used by the model only)>
+			p := strings.Split(s, ":")
+			o = append(o, decode.WithColorAt(intarg(p[1]), colorOfModel(p[2], p[3])))
 		default:
 			panic("bad option " + s)
 		}
